@@ -61,7 +61,7 @@ SCORES = ["spt", "fcfs", "mwkr", "mor", "random"]
 def gen_cases(ctx):
     rng = ctx.rng
     for i in range(ctx.scale(5000, 150000)):
-        inst = gen.gen_instance(rng, None, max_jobs=rng.choice([2, 3, 4, 5, 6]), max_machines=rng.choice([2, 3, 4, 5]))
+        inst = gen.gen_instance(rng, None, max_jobs=rng.choice([2, 3, 4, 5, 6, 10]), max_machines=rng.choice([2, 3, 4, 5]))
         r = rng.random()
         if r < 0.55:
             rule = {"type": "builtin", "name": RULES[i % 5], "form": rng.choice(["str", "enum", "upper", "callable"])}
@@ -82,7 +82,15 @@ def gen_cases(ctx):
                "filter": filt, "api": rng.choice(["solve", "solve_dispatcher", "call", "solve_partial"]),
                "seed": rng.randrange(2**31)}
     for i in range(ctx.scale(1500, 40000)):
-        inst = gen.gen_instance(rng, None, max_jobs=rng.choice([2, 3, 4, 5]), max_machines=rng.choice([2, 3, 4]))
+        if i % 3 == 0:
+            # many jobs (ids >= 8) and tiny durations: exact ties on remaining work between jobs
+            inst = gen.gen_instance(rng, rng.choice(["classic", "irregular", "flexible", "recirc"]),
+                                    max_jobs=rng.choice([9, 10, 12]), max_machines=rng.choice([2, 3]))
+            for job in inst["durations"]:
+                for p in range(len(job)):
+                    job[p] = rng.choice([1, 1, 2])
+        else:
+            inst = gen.gen_instance(rng, None, max_jobs=rng.choice([2, 3, 4, 5]), max_machines=rng.choice([2, 3, 4]))
         yield {"kind": "mwkr_twin", "instance": inst, "filter": gen.gen_filter_spec(rng),
                "seed": rng.randrange(2**31)}
 
